@@ -78,7 +78,13 @@ def search(payload):
             o, e = check_super(vs, tol)
             if o:
                 return {'found': True, 'input': (vs, tol), 'observed': o, 'expected': e, 'tried': tried}
-        for _ in range(6000):
+        for k in range(6000):
+            if k % 50 == 0:
+                # call history in one process: an earlier call failed half-way on a damaged path and the caller carried on
+                try:
+                    pu.supersample([[0, 0], [1, 0], [2, 0], [3, 9], [4, 0], None, [6, 0], [7, 5]], 1.0)
+                except Exception:    # noqa
+                    pass
             n = rnd.randint(0, 7)
             vs = [rnd.choice(pts) for _ in range(n)]
             if rnd.random() < 0.3:
